@@ -18,8 +18,8 @@ def run(tier, wd):
     p = g.STD_PROG
     q = tier == "quick"
     # (1) bounded exhaustive, alphabet chosen so that many lines are accepted with several bound variables
-    specs = g.family(p, 10 if q else 150, seed)
-    alphabet = ["x", "y", "--", "-ab", "-ov", "-o", "--out=w", "-a"] if q else ["x", "y", "--", "-", "-ab", "-ov", "-o", "--out=w", "-a", "-eu", "-bo"]
+    specs = g.family(p, 10 if q else 60, seed)
+    alphabet = ["x", "y", "--", "-ab", "-ov", "-o", "--out=w", "-a"] if q else ["x", "y", "--", "-ab", "-ov", "-o", "--out=w", "-a", "-eu"]
     triples = rc.enumerate_and_run(rep, wd, binpath, specs, alphabet, [[]] if q else [[], ["-e"]], 3 if q else 4, "enum")
     cnt = collections.Counter()
     nontrivial = set()
